@@ -8,6 +8,7 @@ import (
 	"context"
 	"encoding/json"
 	"fmt"
+	"slices"
 	"strings"
 	"sync"
 	"testing"
@@ -168,12 +169,16 @@ func runInBubble(s Script) (res vt.Result) {
 		ord[method]++
 		hmu.Unlock()
 		if k < len(cbOf[method]) && cbOf[method][k] {
+			// bounded: whether a notification handler may wait for an answer from the peer is not part of the
+			// ordering property; if the answer cannot come while the handler runs, the handler just goes on
+			pctx, cancel := context.WithTimeout(ctx, 500*time.Millisecond)
 			switch sess := req.GetSession().(type) {
 			case *mcp.ServerSession:
-				sess.Ping(ctx, nil)
+				sess.Ping(pctx, nil)
 			case *mcp.ClientSession:
-				sess.Ping(ctx, nil)
+				sess.Ping(pctx, nil)
 			}
+			cancel()
 		}
 		if k < len(durOf[method]) && durOf[method][k] > 0 {
 			time.Sleep(time.Duration(durOf[method][k]) * time.Millisecond)
@@ -282,6 +287,7 @@ func runInBubble(s Script) (res vt.Result) {
 		kind     string
 		ordinal  int // ordinal among items of the same method
 		returned bool
+		skip     bool // nothing was sent for this item (refused by the sender): never judged
 	}
 	var sentItems []sent
 	counts := map[string]int{}
@@ -340,6 +346,14 @@ func runInBubble(s Script) (res vt.Result) {
 			// The sender only waits until the call has been sent (quiescence), not for its result.
 			synctest.Wait()
 		}
+		if nerr != nil && (it.Kind == "progress" || it.Kind == "sprogress") {
+			// the token is invented (no request announced it): an SDK may refuse to send such a notification.
+			// Nothing was sent, so the item does not take part in the ordering.
+			res.Class("progress_with_unannounced_token_refused")
+			counts[m]--
+			sentItems = append(sentItems, sent{kind: it.Kind, skip: true}) // keeps sentItems aligned with s.Items
+			continue
+		}
 		if nerr != nil {
 			res.Failf("item %d (%s): sending failed: %v", i, it.Kind, nerr)
 			return finish(res, s, &desc, false, false)
@@ -388,7 +402,7 @@ func runInBubble(s Script) (res vt.Result) {
 	}
 	nt, overlapped := false, false
 	for i, n := range sentItems {
-		if n.kind == "abandoned" {
+		if n.kind == "abandoned" || n.skip {
 			continue // may or may not reach a handler; it is not a notification and is never judged
 		}
 		rn := lookup(n)
@@ -417,7 +431,7 @@ func runInBubble(s Script) (res vt.Result) {
 			nt = true
 		}
 		for j := i + 1; j < len(sentItems); j++ {
-			if sentItems[j].kind == "abandoned" {
+			if sentItems[j].kind == "abandoned" || sentItems[j].skip {
 				continue // which of them were dispatched is unknown: ordinals cannot be matched
 			}
 			rm := lookup(sentItems[j])
@@ -557,6 +571,22 @@ func runInitInBubble(s InitScript) (res vt.Result) {
 	// it starts before its handler has finished (the k-th record of a method belongs to the k-th message of
 	// that method; earlier calls may start late, they are asynchronous)
 	recOf := func(idx int) *rec {
+		// Ordinal matching needs every message of that method to have reached a handler: a server may refuse
+		// some of them before any handler runs (e.g. what arrives before notifications/initialized).
+		sentN, gotN := 0, 0
+		for _, m := range s.Followers {
+			if m == s.Followers[idx] {
+				sentN++
+			}
+		}
+		for _, e := range rcv.recs {
+			if e.method == s.Followers[idx] {
+				gotN++
+			}
+		}
+		if sentN != gotN {
+			return nil
+		}
 		ord := 0
 		for _, m := range s.Followers[:idx] {
 			if m == s.Followers[idx] {
@@ -596,7 +626,13 @@ func runInitInBubble(s InitScript) (res vt.Result) {
 	n := len(rcv.recs)
 	rcv.mu.Unlock()
 	if n < 2 {
-		res.Failf("no message sent behind initialize reached the handlers (%d records)", n)
+		// Only ping and notifications/initialized are certain to be accepted before the session is initialised;
+		// a server may refuse everything else until then (before any handler runs): that is vacuity, not disorder.
+		if slices.Contains(s.Followers, "ping") || slices.Contains(s.Followers, "notifications/initialized") {
+			res.Failf("no message sent behind initialize reached the handlers (%d records)", n)
+		} else {
+			res.Class("followers_refused_before_initialized")
+		}
 	}
 	res.Desc = fmt.Sprintf("%d|%v", s.InitDurMs, s.Followers)
 	res.NonTrivial = s.InitDurMs > 0
